@@ -267,6 +267,36 @@ pub fn run_op(c: &mut Case, idx: usize, toks: &[&str]) -> String {
                 format!("ok:items:{}", items.join(","))
             }
         }),
+        // walk p, take k items, remove q (as a file, else as a tree) behind the iterator's back, drain the rest
+        ["walkrm", p, k, q] => on2!(p, q, |p: VfsPath, q: VfsPath| match p.walk_dir() {
+            Err(e) => format!("err:{}", err_s(&e)),
+            Ok(mut it) => {
+                let k: usize = k.parse().unwrap();
+                let mut items = vec![];
+                let mut push = |x: vfs::VfsResult<VfsPath>| match x {
+                    Ok(q) => items.push(format!("o{}", hex(q.as_str().as_bytes()))),
+                    Err(e) => items.push(format!("e{}@{}", kind_s(e.kind()), epath_s(e.path()))),
+                };
+                for _ in 0..k {
+                    match it.next() {
+                        Some(x) => push(x),
+                        None => break,
+                    }
+                }
+                if q.remove_file().is_err() {
+                    let _ = q.remove_dir_all();
+                }
+                let mut n = 0;
+                for x in it {
+                    n += 1;
+                    if n > 100000 {
+                        break;
+                    }
+                    push(x);
+                }
+                format!("ok:items:{}", items.join(","))
+            }
+        }),
         ["probe", p] => on!(p, |p: VfsPath| {
             let ex = p.exists();
             let md = p.metadata();
